@@ -490,7 +490,7 @@ func c17LastWords(def *ph.Def, lv *c17Level) []string {
 func init() {
 	register(&Check{
 		ID:        "C17",
-		QuickSecs: 900, ThoroSecs: 1500,
+		QuickSecs: 900, ThoroSecs: 3000,
 		Rule: "input-space exploration of the completion path, in-process (exit function and completion writer replaced through an overlay-only file): 6 trees (aliases, suggested and valid values, value completion function, static and dynamic argument completions, UnsetOptions wrapper, nested commands, with and without help command, lonesome dash, require-order on a command, all three modes) x every sequence of earlier words of length <= Le over long options with values, command names and a positional " +
 			"x last word in {every prefix of every option name/alias and command/suggestion of the level reached, `-`, `--`, empty, `--k=`, `--k=<prefix>`, non-matching} x bash/zsh x three argument conventions of Parse, and (bash) the same line with its words separated by two blanks or by a tab; offered option names / commands / values compared as sets with the set computed from the definition and the reference model's level, " +
 			"sortedness, parser acceptance of every offered option and command, no CommandFn, exit path (also when the stream the candidates are written to fails); three cases with a dynamic completion function that takes 1.5 s to answer; distinct_nontrivial = distinct in-domain (definition, COMP_LINE, target, convention) cases",
